@@ -183,7 +183,7 @@ def main(tier, n=None):
             if tier == "thorough":
                 take = occ
             elif crit:
-                take = occ[:2] + occ[-1:]
+                take = occ[:1] + occ[-1:]
             else:
                 # non-critical sites (planning, parsing, reporting): once per scenario pair
                 take = occ[:1] if (site, s["name"][:4]) not in seen_noncrit else []
